@@ -80,6 +80,7 @@ type JobResult struct {
 	Samples      []map[string]any
 	Diverged     int
 	Err          string
+	BoundCompleted int
 }
 
 var setupDone = map[string]bool{}
@@ -150,6 +151,9 @@ func RunJob(sc *Scenario, job Job) *JobResult {
 		}
 		od := digest(strings.Join(x.Obs, "|"), BlockedSummary(r), fmt.Sprint(len(r.Panics)))
 		res.Outcomes[od]++
+		if os.Getenv("VERIF_DEBUG_OUTCOMES") != "" && res.Outcomes[od] == 1 {
+			fmt.Fprintf(os.Stderr, "outcome %s: %v choices=%v\n", od, x.Obs, r.Choices)
+		}
 		if sc.Interesting != nil && sc.Interesting(x, r) {
 			res.Interesting++
 		}
@@ -182,14 +186,40 @@ func RunJob(sc *Scenario, job Job) *JobResult {
 		res.Samples = append(res.Samples, map[string]any{"trace": r.Trace})
 		return res
 	}
-	ex := &vsched.Explorer{Opt: opt, Bounds: vsched.Bounds{Preempt: job.Preempt, Data: job.Data, Sched: job.Sched}, ShardI: job.ShardI, ShardN: job.ShardN, Check: check}
+	// iterative deviation bounding: explore everything with 1 schedule deviation, then 2, ... up to the job's bound,
+	// so that when the time cap is hit the smaller bounds have been completed and the first counterexample is minimal
+	var deadline time.Time
 	if job.BudgetS > 0 {
-		ex.Deadline = time.Now().Add(time.Duration(job.BudgetS * float64(time.Second)))
+		deadline = time.Now().Add(time.Duration(job.BudgetS * float64(time.Second)))
 	}
-	ex.Run(body)
-	st := ex.Stats
-	res.Executions, res.Points, res.Steps, res.MaxPoints = st.Executions, st.Points, st.Steps, st.MaxPoints
-	res.Exhaustive, res.CapHit = st.Exhaustive, st.CapHit
+	lo := job.Sched
+	if job.Sched > 1 {
+		lo = 1
+	}
+	res.Exhaustive = true
+	for b := lo; ; b++ {
+		pre := job.Preempt
+		if job.Sched > 0 && pre > b {
+			pre = b
+		}
+		ex := &vsched.Explorer{Opt: opt, Bounds: vsched.Bounds{Preempt: pre, Data: job.Data, Sched: b}, ShardI: job.ShardI, ShardN: job.ShardN, Check: check, Deadline: deadline}
+		ex.Run(body)
+		st := ex.Stats
+		res.Executions += st.Executions
+		res.Points += st.Points
+		res.Steps += st.Steps
+		if st.MaxPoints > res.MaxPoints {
+			res.MaxPoints = st.MaxPoints
+		}
+		if !st.Exhaustive {
+			res.Exhaustive, res.CapHit = false, fmt.Sprintf("%s while exploring schedule-deviation bound %d (bound %d completed)", st.CapHit, b, b-1)
+			break
+		}
+		res.BoundCompleted = b
+		if b >= job.Sched || job.Sched <= 0 {
+			break
+		}
+	}
 	return res
 }
 
